@@ -331,6 +331,13 @@ private:
           }
           UNIFEX_CATCH(...) { source_cleanup_error(std::current_exception()); }
 
+          if (!stream_.triggerNextStarted_) {
+            // No next() operation was ever started (e.g. connecting the first
+            // one threw), so the trigger's next() was never started either and
+            // nothing would ever signal that the trigger cleanup may run.
+            stream_.cleanupReady_.store(true, std::memory_order_release);
+          }
+
           if (!stream_.cleanupReady_.load(std::memory_order_acquire)) {
             stream_.cleanupOperation_ = this;
             stream_.stopSource_.request_stop();
